@@ -153,13 +153,15 @@ PROPS = {
         kani_quick=[],
         kani_thorough=['rebuild_slice_default'],
         design_ref='DESIGN.md section 4 (U-CONT, U-MIN, U-REBUILD) and section 5 C14',
-        level_text='Unbounded proof (Verus) on the real code of: (cont) PairContainer/VecContainer::rebuild_contents rebuild every element flagged for rebuild through the '
-                   'rebuilder and return false only if nothing was modified (the trait obligation); ContainerValues::expand_dirty_id_closure returns a superset of the dirty ids '
+        level_text='Unbounded proof (Verus) on the real code of: (cont) rebuild_contents of ALL FIVE container sorts: Pair/Vec rebuild every element flagged for rebuild through the '
+                   'rebuilder; SetContainer: the new set is the image of the old one under the rebuilder (elements that become equal collapse); MultiSetContainer: the image with multiplicities added up; '
+                   'MapContainer: the new key set is the image of the old one (when keys are rebuilt) and every key carries the rebuilt value of an old key it comes from (which value survives a key collision is outside the claim, as in the property); '
+                   'each returns false only if nothing was modified and true for every changed element/key (the trait obligation); ContainerValues::expand_dirty_id_closure returns a superset of the dirty ids '
                    'that is CLOSED under "is directly contained in" for all container types and nesting depths and raises `changed` whenever it adds one; '
                    '(merge) the container merge closure of register_container_ty keeps min(old,new) and stages exactly that union; (driver) every rebuild pass rebuilds containers '
                    'before tables, refreshes rows with exactly that pass\'s dirty ids and timestamp, and stops only when container rebuild, table rebuild and refresh all report no change. '
-                   '(tblrebuild) the staging half of SortedWritesTable::refresh_rows_for_values (lifted): every live candidate row is removed and re-inserted unchanged except for its sort column, which becomes next_ts, so rules see the parent rows of a rebuilt container again; which rows are candidates (the rebuild index lookup) is assumed. The container environments themselves (DashMap hash-consing, apply_rebuild_*, val_index maintenance) and Set/Map/MultiSet rebuild_contents are NOT covered.',
-        level_note='Trusted: IndexSet as a set, ValueRebuilder::rebuild_val as a pure function of (rebuilder, value) [the default rebuild_slice body IS verified, R-ITERMUT], DynamicContainerEnv::extend_containers_containing adds exactly the direct '
+                   '(tblrebuild) the staging half of SortedWritesTable::refresh_rows_for_values (lifted): every live candidate row is removed and re-inserted unchanged except for its sort column, which becomes next_ts, so rules see the parent rows of a rebuilt container again; which rows are candidates (the rebuild index lookup) is assumed. The container environments themselves (DashMap hash-consing, apply_rebuild_*, val_index maintenance) and the container constructors (primitive closures of src/sort/*.rs) are NOT covered.',
+        level_note='Trusted: IndexSet as a set, std BTreeSet / BTreeMap and egglog inner::MultiSet as finite set / map / multiset whose iteration yields every element and whose FromIterator builds the set / map / multiset of the yielded elements (R-INTOCOLLECT, R-MAPCOLLECT via=, R-ITERMUT values_mut), ValueRebuilder::rebuild_val as a pure function of (rebuilder, value) [the default rebuild_slice body IS verified, R-ITERMUT], DynamicContainerEnv::extend_containers_containing adds exactly the direct '
                    'parents recorded in val_index, DenseIdMap::iter; rewrites R-INTOVEC, R-ITER, R-AUTOTRAIT (dyn T + Send + Sync -> dyn T), R-INHERENT; the Database contracts of C04.',
         assumptions=['ContainerEnv (DashMap, trait objects) and refresh_rows_for_values (hashbrown index) assumed', 'termination of the closure loop not claimed'],
     ),
